@@ -153,7 +153,7 @@ def build(torch):
         sh = a[0]["shape"]
         x = arr(a[0])
         sl = slabs(x, wrap(a[1], len(sh))) if sh else [flat_ints(x)]
-        return f"(CUnfold {lz(sh)} {z(a[1])} {z(a[2])} {z(a[3])} {llz(sl)})"
+        return f"(CUnfold {{FIXED}} {lz(sh)} {z(a[1])} {z(a[2])} {z(a[3])} {llz(sl)})"
 
     def unfold_res(a, k, out):
         sh = a[0]["shape"]
